@@ -767,7 +767,7 @@ func vC20RenderRes(p *vC20Pool, op vC20Op, r vC20Res) string {
 }
 
 func TestVerif_C20_model(t *testing.T) {
-	vh.Run(t, vh.Spec{Prop: "C20", Unit: "model", Quick: 4000, Thorough: 200000, CostMs: 2,
+	vh.Run(t, vh.Spec{Prop: "C20", Unit: "model", Quick: 6000, Thorough: 200000, CostMs: 2,
 		Rule:    "PRNG histories of 6-25 Put (1-6 keys, stored and new, 1 call in 5 of 40% of the histories carries a key twice) / Get / ContainsPrefix / CountKeysUpTo (prefix lengths around prefixBits, common prefixes of stored keys, flipped last bit; limits -1..100) / Delete / Empty / Size / clean restart (Close + reopen on the same journaling store) / sequential ResetCids (0-10 CIDs) on the plain keystore and the resettable keystore in shared and factory mode, prefixBits in {0,8,16}, batchSize in {1,2,3,7}, 8-40 multihashes out of a pool with ids sharing 17+ leading bits; lock-step set model (ids recomputed as sha256 of the multihash), Size and full contents compared after every step; non-trivial = a Put of an already stored key, a prefix query longer than prefixBits whose post-filter discriminates (fewer matches than under the truncated prefix) and a restart all occurred; distinct by hash of the model-state sequence",
 		Clauses: []string{"put-returns-new", "get-prefix", "contains-prefix", "count-prefix", "delete", "size", "contents", "restart-contents", "reset-contents"}},
 		func(c *vh.Case) {
@@ -858,7 +858,7 @@ func vC20AllowedAt(recs []vC20Rec, n int, c vC20Set) (ok bool, inflight string, 
 }
 
 func TestVerif_C20_crash(t *testing.T) {
-	vh.Run(t, vh.Spec{Prop: "C20", Unit: "crash", Quick: 400, Thorough: 15000, CostMs: 25,
+	vh.Run(t, vh.Spec{Prop: "C20", Unit: "crash", Quick: 600, Thorough: 15000, CostMs: 25,
 		Rule:    "fault enumeration: PRNG histories of 5-25 Put/Delete/Empty/queries/clean restart/sequential ResetCids (no call with a repeated key) on the three keystore kinds are recorded in the vjds journal with the journal range of every operation; for EVERY write boundary (after each successful write, sync or destroy of any store) the datastores are reconstructed under the prefix model and under four survivor choices of the subset model (no unsynced write survives; PRNG half; only unsynced metadata writes — size key, active marker — are lost; only unsynced data writes are lost), a keystore of the same configuration is reopened on each distinct state and its contents (Get of the empty prefix) and Size are judged: acknowledged state, or between the states without/with the one in-flight operation (in-flight reset: exactly old or exactly new), Size = number of keys; at 3 sampled crash points of a case the reopened keystore then runs ResetCids + Put + clean restart and must hold exactly those keys; non-trivial = the history contains a restart and a mutating operation after it, and (resettable kinds) a reset; distinct by hash of (config, operation sequence)",
 		Clauses: []string{"crash-contents", "crash-size", "crash-continue"}},
 		func(c *vh.Case) {
@@ -1127,7 +1127,7 @@ func vC20AccessClass(cfg vC20Cfg, e *vjds.Entry) string {
 }
 
 func TestVerif_C20_faults(t *testing.T) {
-	vh.Run(t, vh.Spec{Prop: "C20", Unit: "faults", Quick: 120, Thorough: 4000, CostMs: 120,
+	vh.Run(t, vh.Spec{Prop: "C20", Unit: "faults", Quick: 160, Thorough: 4000, CostMs: 120,
 		Rule:    "fault enumeration: a PRNG history of 4-12 operations (as in unit model, incl. clean restarts and sequential resets, no repeated key inside a call) is first run fault-free to count its datastore accesses (Get/Has/Query/Put/Delete/Batch/Commit/Sync/Close and factory create/destroy, all stores); then it is re-run once per access index with exactly that access failing (vjds hook). Oracle: a call during which no fault fired behaves exactly like the model; the call hit by the fault either returns an error — then the contents read back afterwards lie between the states without and with it (reset: exactly one of them) and become the model — or returns success, then it must have had its full effect (documented fallbacks: ignored Sync errors, size recount); afterwards Size = number of keys, no duplicates, every later call agrees with the model, and a final clean restart reproduces the contents; non-trivial = the history has >= 40 accesses incl. a restart, and faults fired in at least 5 different operation kinds; distinct by hash of (config, operations)",
 		Clauses: []string{"fault-call", "fault-recover-contents", "fault-recover-size", "fault-later-calls", "fault-final-restart"}},
 		func(c *vh.Case) {
@@ -1210,7 +1210,8 @@ func vC20FaultRun(c *vh.Case, p *vC20Pool, cfg vC20Cfg, ops []vC20Op, at int) (f
 		case firedKind == "reset" && e.Op == vjds.OpPut && e.Key == "/active":
 			// the failed write of the active-slot marker is only logged: the old slot is torn down although the marker still names it
 			sig = "faults/reset-marker-write-ignored"
-		case firedKind == "reset" && sigTail == "success-without-effect":
+		case firedKind == "reset" && sigTail == "success-without-effect" && e.Key != "/active" &&
+			(e.Op == vjds.OpSync || e.Op == vjds.OpBatch || e.Op == vjds.OpHas || e.Op == vjds.OpCommit):
 			// opCleanup aborts the swap after a failed final drain / sync, but ResetCids has already decided to return nil
 			sig = "faults/reset-cleanup-failure-returns-nil"
 		}
